@@ -7,7 +7,7 @@ use prog::*;
 #[cfg(not(desync_verif_real))]
 use sched::*;
 #[cfg(desync_verif_real)]
-pub enum Kind { Rnd, Sticky(u64), Guided(Vec<usize>), Withhold(usize), Inject { base: Vec<usize>, k: usize, task: usize } }
+pub enum Kind { Rnd, Sticky(u64), Guided(Vec<usize>), Withhold(usize), Inject { base: Vec<usize>, k: usize, task: usize }, Freeze { base: Vec<usize>, k: usize, dur: usize } }
 use std::io::Write;
 use std::sync::{Arc, Mutex};
 
@@ -188,6 +188,30 @@ fn main() {
                     if base.status != "ok" { nfail += 1; println!("SCHED\t{}\t{}\t{}", pi, b * 100000, base.schedule.iter().map(|x| x.to_string()).collect::<Vec<_>>().join(",")); continue; }
                     for k in 0..=base.schedule.len() {
                         let r = execute(p, Kind::Inject { base: base.schedule.clone(), k, task: firer }, seed + b, fail_fast, touch_yield, None, max_steps);
+                        total += 1;
+                        println!("RES\t{}\t{}\t{}\t{}\t{}\t{}\t{}\t{}", pi, b * 100000 + k as u64 + 1, seed + b, r.status, r.steps, r.ops, p.text(), r.detail);
+                        if r.status != "ok" { nfail += 1; println!("SCHED\t{}\t{}\t{}", pi, b * 100000 + k as u64 + 1, r.schedule.iter().map(|x| x.to_string()).collect::<Vec<_>>().join(",")); }
+                    }
+                }
+            }
+            println!("DONE\t{}\t{}", total, nfail);
+        }
+        // freeze: for every scheduling decision k of a base run, the task that ran there is held back for a while (the others run):
+        // an exhaustive sweep of single long preemptions - finds windows that sit between two steps of ONE thread
+        "freeze" => {
+            let progs: Vec<Program> = if let Some(f) = arg(&args, "--progs") {
+                std::fs::read_to_string(f).unwrap().lines().filter(|l| !l.trim().is_empty() && !l.starts_with('#')).map(|l| Program::parse(l).expect("parse")).collect()
+            } else { vec![Program::parse(arg(&args, "--prog").expect("--prog")).expect("parse")] };
+            let dur: usize = arg(&args, "--dur").and_then(|s| s.parse().ok()).unwrap_or(150);
+            let mut nfail = 0; let mut total = 0;
+            for (pi, p) in progs.iter().enumerate() {
+                for b in 0..scheds {
+                    let base = execute(p, Kind::Sticky(60), seed + b, fail_fast, touch_yield, None, max_steps);
+                    println!("RES\t{}\t{}\t{}\t{}\t{}\t{}\t{}\t{}", pi, b * 100000, seed + b, base.status, base.steps, base.ops, p.text(), base.detail);
+                    total += 1;
+                    if base.status != "ok" { nfail += 1; println!("SCHED\t{}\t{}\t{}", pi, b * 100000, base.schedule.iter().map(|x| x.to_string()).collect::<Vec<_>>().join(",")); continue; }
+                    for k in 0..base.schedule.len() {
+                        let r = execute(p, Kind::Freeze { base: base.schedule.clone(), k, dur }, seed + b, fail_fast, touch_yield, None, max_steps);
                         total += 1;
                         println!("RES\t{}\t{}\t{}\t{}\t{}\t{}\t{}\t{}", pi, b * 100000 + k as u64 + 1, seed + b, r.status, r.steps, r.ops, p.text(), r.detail);
                         if r.status != "ok" { nfail += 1; println!("SCHED\t{}\t{}\t{}", pi, b * 100000 + k as u64 + 1, r.schedule.iter().map(|x| x.to_string()).collect::<Vec<_>>().join(",")); }
